@@ -328,6 +328,14 @@ class Gen:
         if k == 12:
             return "call %s" % self.ch(["subOne", "subTwo"]), "call"
         if k == 13:
+            if self.p(0.5):
+                # the action of a logical IF may be any action statement but another IF / an END statement
+                for _ in range(4):
+                    t, kd = self.simple_exec()
+                    if kd not in ("if_stmt", "exit", "cycle") and not t.startswith("if ("):
+                        return "if (%s) %s" % (self.lexpr(1), t), "if_stmt"
+                    if kd == "arithmetic_if":
+                        return "if (%s) %s" % (self.lexpr(1), t), "if_stmt"
             return "if (%s) %s" % (self.lexpr(1), self.assign()), "if_stmt"
         if k == 14:
             return "%s => %s" % (self.ch(NAMES_PTR), self.ch(NAMES_REAL)), "ptr_assign"
@@ -410,6 +418,17 @@ class Gen:
                 ("%s = %s(1:%s:2) + %s(:)" % ("aVec(1:5)", "cBuf", "10", "aVec"), "array_section"),
                 ("%s = bMat(1, :) * bMat(:, 2)" % "aVec", "array_section"),
                 ("%s = iand(%s, z'ff')" % (self.ivar(), self.ivar()), "boz"),
+                # logical IF with the less usual action statements
+                ("if (%s) if (%s) 110, 120, 130" % (self.lexpr(0), self.rexpr(1)), "if_stmt"),
+                ("if (%s) go to (110, 120), %s" % (self.lexpr(0), self.ivar()), "if_stmt"),
+                ("if (%s) where (aVec > 0.0) aVec = 1.0" % self.lexpr(0), "if_stmt"),
+                ("if (%s) forall (iCnt = 1:3) aVec(iCnt) = 0.0" % self.lexpr(0), "if_stmt"),
+                ("if (%s) allocate(dynA(2), stat = %s)" % (self.lexpr(0), self.ivar()), "if_stmt"),
+                ("if (%s) open(unit = 13, file = 'cond.dat')" % self.lexpr(0), "if_stmt"),
+                ("if (%s) read (5, *) %s" % (self.lexpr(0), self.rvar()), "if_stmt"),
+                ("if (%s) return" % self.lexpr(0), "if_stmt"),
+                ("if (%s) stop 'cond'" % self.lexpr(0), "if_stmt"),
+                ("if (%s) %s => %s" % (self.lexpr(0), self.ch(NAMES_PTR), self.ch(NAMES_REAL)), "if_stmt"),
             ])
         return self.assign(), "assign"
 
